@@ -918,7 +918,7 @@ func c05RoundTrip(kind string, seed uint64, mode int) (string, *Violation) {
 }
 
 func c05Gen(r *Rng, tier string, emit func(string)) {
-	n := 500
+	n := 1500
 	if tier == "thorough" {
 		n = 8000
 	}
